@@ -202,15 +202,19 @@ PROPS = {
                        "contexts and the fake API server are environment. Trusted: Lean kernel (+propext, Quot.sound, Classical.choice), the "
                        "hand-written model, the Go harness (incl. its LIST/WATCH gate for the resourceVersion-less fake tracker) and the driver."),
         "technique": "Lean 4 proof (invariants of a transition system, trace-checker soundness) + trace-inclusion / differential correspondence against the real Go code",
-        "domains": ["funnel", "watcher", "watcher-fatal"],
+        "domains": ["funnel", "watcher", "watcher-fatal", "watcher-unsched"],
         "rule": ("funnel: random programs (1-4 producers, 0-3 events each, add/send/close with seeded delays of 0-0.8 ms, cancellation at a random "
                  "point, optionally slow consumer) run against the real eventFunnel, one case at a time in child processes; a case is non-trivial "
                  "if it has >= 2 producers or >= 2 events. watcher: 6 hand-written reporter configurations + random scripts (2-9 mutation rounds of "
                  "create/update/delete on watched and unwatched Pods, ConfigMaps, a Deployment in 2 namespaces, optional watched Namespace object "
-                 "deleted and re-created, optional CRD + custom resource installed/removed, root / namespace / automatic scope, optional slow "
+                 "deleted and re-created, optional CRD + custom resource installed/removed (incl. a CRD that is served only from its first status-only "
+                 "update on), watch connections expired with 410 and a watched object deleted while the watch is down (the delete arrives through the "
+                 "re-list), root / namespace / automatic scope, optional slow "
                  "LIST, racing (no barriers) or strict mode, cancellation at a random step in 1/6 of the cases); non-trivial if >= 2 mutations. "
                  "watcher-fatal: LIST Forbidden on 0-3 of 3 watched kinds, both scopes, consumer delayed 0-30 ms, 48 trials (quick); quick runs 5000 funnel programs and 706 watcher scripts; "
-                 "non-trivial if >= 2 kinds fail. distinct = distinct canonical input JSON."),
+                 "non-trivial if >= 2 kinds fail. watcher-unsched: an unschedulable pod (InProgress inside the library's 15 s schedule window, Failed "
+                 "after it, with no change of the object) left alone / scheduled after 1 s / deleted after 1 s, both scopes: the delayed re-read from the "
+                 "cluster must deliver the final status (6 cases of 16 s, run concurrently). distinct = distinct canonical input JSON."),
         "exhaustive_quick": False,
         "timeout_quick": 300,
         "explanation": ("Theorems: see level_text. Tie: (a) every observed history of the real funnel (successful / rejected adds, sends, input "
